@@ -232,6 +232,40 @@ def run_case(case):
         out.append(("C06:value-depends-on-access-history:%s" % base_of_value(r_cls),
                     "%s: .value gives %r on first access, %r on second access, %r after str()" % (where, first, second, after_str)))
 
+    # ---- every other way of rendering as text: repr, format, containers, %-formatting
+    for how, fn in (("repr()", lambda: repr(r)), ("format()", lambda: format(r)), ("'%r'", lambda: "%r" % (r,)),
+                    ("'%s'", lambda: "%s" % (r,)), ("f'{!r}'", lambda: "{!r}".format(r)), ("str([r])", lambda: str([r])),
+                    ("str({k: r})", lambda: str({"answer": r}))):
+        try:
+            t = fn()
+            if not isinstance(t, str):
+                out.append(("C06:str-type:%s" % name, "%s: %s gave %r" % (where, how, type(t))))
+        except faults as e:
+            out.append(("C06:text-rendering-raises:%s" % type(e).__name__, "%s: %s raised %r" % (where, how, e)))
+        except ValueError as e:
+            en = getattr(r_cls, "enumerator", None)
+            if not (kind == "enum" and clean and v not in [m.value for m in en]):
+                out.append(("C06:text-rendering-raises:ValueError", "%s: %s raised %r" % (where, how, e)))
+        except Exception as e:  # noqa
+            out.append(("C06:text-rendering-raises:%s" % type(e).__name__, "%s: %s raised %r" % (where, how, e)))
+    # ---- the response hands the frame through: when the caller's frame object changes afterwards (a driver
+    #      reusing one frame object, a caller editing raw_value) every view follows it or none does
+    if clean and kind != "generic":
+        try:
+            fr2 = frame.BackwardFrame(v)
+            r2 = r_cls(fr2)
+            first_view = probe(r2)
+            nv = (v * 7 + 13) % 256
+            fr2[7:0] = nv
+            a = probe(r2)
+            b = probe(r_cls(frame.BackwardFrame(nv)))
+            if r2.raw_value.as_integer == nv and a != b:
+                out.append(("C06:value-out-of-step-with-raw-value:%s" % base_of_value(r_cls),
+                            "%s: after the frame it holds was changed to %d, raw_value shows %d but .value gives %r "
+                            "(a response built on an equal frame: %r; before the change: %r)" % (where, nv, nv, a, b, first_view)))
+        except Exception as e:  # noqa
+            out.append(("C06:frame-change-raised:%s" % type(e).__name__, "%s: %r" % (where, e)))
+
     # ---- str()
     try:
         s = str(r)
